@@ -28,6 +28,7 @@ type specEnv struct {
 	pkgPath   string
 	ghost     map[string]string // ghost maps of a contract (name -> SMT function symbol)
 	entryHeld map[string][]string // when translating requires: locks stated to be held at entry
+	freeCells map[string]*Ptr     // captured variables of a closure contract (name -> cell)
 }
 
 type sv struct {
@@ -738,6 +739,9 @@ func (e *specEnv) keyOfLValue(x Expr) (key string, ok bool) {
 func (e *specEnv) lookup(name string) Val {
 	if v, ok := e.vars[name]; ok {
 		return v
+	}
+	if p, ok := e.freeCells[name]; ok {
+		return Val{t: e.u.loadPtr(p, e.st), typ: p.targetType()}
 	}
 	// results
 	if e.results != nil {
